@@ -96,8 +96,11 @@ def pwl_events(tf, tfl, ctx, rng, n):
     slopes = bool(j % 2)
     units = int(rng.choice([1, 2]))
     try:
+      # every other layer also learns the output for missing inputs: that weight has an initial value and a bound too
+      impute = bool((j // 4) % 2)
       layer = tfl.layers.PWLCalibration(input_keypoints=[float(v) for v in kp], units=units, output_min=omin, output_max=omax,
-                                        monotonicity=mono, kernel_initializer="equal_slopes" if slopes else "equal_heights")
+                                        monotonicity=mono, kernel_initializer="equal_slopes" if slopes else "equal_heights",
+                                        impute_missing=impute, missing_input_value=-100.0 if impute else None)
       layer.build((None, units))
     except ValueError:
       ctx.extra["rejected_at_construction"] = ctx.extra.get("rejected_at_construction", 0) + 1
@@ -115,10 +118,21 @@ def pwl_events(tf, tfl, ctx, rng, n):
     else:
       ilo, ihi = Fraction(omin), Fraction(omax)
     lens = [rat(Fraction(float(kp[i + 1] - kp[i]))) for i in range(nk - 1)]
+    mo = moc = None
+    if impute:
+      mo = np.broadcast_to(np.asarray(layer.missing_output.numpy()).reshape(-1), (units,)) if np.asarray(layer.missing_output.numpy()).size == 1 \
+          else np.asarray(layer.missing_output.numpy()).reshape(-1)
+      mc = layer.missing_output.constraint
+      moc_t = mc(layer.missing_output).numpy() if mc is not None else layer.missing_output.numpy()
+      moc = np.broadcast_to(np.asarray(moc_t).reshape(-1), (units,)) if np.asarray(moc_t).size == 1 else np.asarray(moc_t).reshape(-1)
     for u in range(units):
-      evs.append({"ev": "PwlInit", "lens": lens, "lo": rat(ilo), "hi": rat(ihi), "mono": mono, "slopes": slopes, "den": DEN,
-                  "w": ints(K[:, u]), "asserted": oc, "wc": ints(Kc[:, u]), "tolu": 8, "site": {"layer": "pwl"},
-                  "call": {"kp": kp.tolist(), "mono": mono, "omin": omin, "omax": omax, "slopes": slopes}})
+      ev = {"ev": "PwlInit", "lens": lens, "lo": rat(ilo), "hi": rat(ihi), "mono": mono, "slopes": slopes, "den": DEN,
+            "w": ints(K[:, u]), "asserted": oc, "wc": ints(Kc[:, u]), "tolu": 8, "site": {"layer": "pwl"},
+            "call": {"kp": kp.tolist(), "mono": mono, "omin": omin, "omax": omax, "slopes": slopes, "impute": impute}}
+      if impute:
+        ev.update({"miss": ints([mo[u]])[0], "missc": ints([moc[u]])[0], "hasMin": omin is not None, "hasMax": omax is not None,
+                   "omin": rat(Fraction(omin)) if omin is not None else [0, 1], "omax": rat(Fraction(omax)) if omax is not None else [0, 1]})
+      evs.append(ev)
     ctx.count(units, nontrivial_key=("pwl", j))
   return evs
 
